@@ -363,7 +363,7 @@ pub fn generate_c13(rng: &mut Rng, idx: usize, _tier: Tier) -> CaseOut {
         }
         2 => {
             lazy_ok = true;
-            let ls: Vec<String> = [vec!["1", "x"], vec!["x", "1"], vec!["1", "2", "1e", "3"], vec!["2", "1", "abc"], vec!["", "7", "0x10"]][rng.below(5)].iter().map(|s| s.to_string()).collect();
+            let ls: Vec<String> = [vec!["1", "x"], vec!["x", "1"], vec!["1", "2", "1e", "3"], vec!["2", "1", "abc"], vec!["", "7", "0x10"], vec!["x", "x"], vec!["TODO", "TODO", "TODO"], vec!["5", "n/a", "n/a"]][rng.below(8)].iter().map(|s| s.to_string()).collect();
             (vec![("keep-sorted".into(), "asc".into()), ("keep-sorted-format".into(), "numeric".into())], ls.clone(), format!("numeric keys {ls:?}"))
         }
         3 => {
